@@ -1,6 +1,7 @@
 package checks
 
 import (
+	"encoding/json"
 	"fmt"
 	"os"
 	"regexp"
@@ -169,7 +170,7 @@ func c18Worker(sh *explore.Shard) {
 		ex := mkEx(false, bound)
 		ex.Run()
 		sh.C.Evals += ex.Executions
-		sh.C.Nontrivial += ex.Executions
+		sh.C.Nontrivial += ex.Deviating
 		sh.C.States += int64(len(outcomes)) // distinct observable end states (frame sequences)
 		sh.C.Transitions += ex.Transitions
 		for o := range outcomes {
@@ -273,6 +274,62 @@ func c18EndToEnd(sh *explore.Shard) {
 	})
 }
 
+// c18Replay re-executes one recorded schedule (no exploration).
+func c18Replay(caseJSON []byte) (string, error) {
+	var c struct {
+		Scenario string `json:"scenario"`
+		Schedule []int  `json:"schedule"`
+		Ticks    int    `json:"ticks"`
+		Desc     string `json:"desc"`
+	}
+	if err := json.Unmarshal(caseJSON, &c); err != nil {
+		return "", err
+	}
+	if c.Scenario == "" {
+		return "", ErrUseWorker
+	}
+	for _, tier := range []string{"quick", "thorough"} {
+		for _, sc := range c18Scenarios(tier) {
+			if sc.name != c.Scenario {
+				continue
+			}
+			incs := map[string]int{}
+			for _, p := range sc.phases {
+				incs[p.ph] = p.incs
+			}
+			w := &c18Writer{}
+			body := func() {
+				w = &c18Writer{}
+				p := meter.NewProgressMeter(w, time.Hour)
+				for _, ph := range sc.phases {
+					w.frames = append(w.frames, "#start "+ph.ph)
+					p.Start(ph.ph + ": %d")
+					for i := 0; i < ph.incs; i++ {
+						p.Inc()
+					}
+					p.Done()
+					w.frames = append(w.frames, "#done "+ph.ph)
+				}
+			}
+			x := verifsched.Run(body, c.Schedule, verifsched.Sched{TicksPerTicker: c.Ticks, Trace: true})
+			fmt.Println("frames written under the recorded schedule:")
+			for _, f := range w.frames {
+				fmt.Printf("  %q\n", f)
+			}
+			switch {
+			case x.Diverged != "":
+				return "", fmt.Errorf("the recorded schedule does not fit the current code: %s", x.Diverged)
+			case x.PanicValue != nil:
+				return fmt.Sprintf("panic: %v", x.PanicValue), nil
+			case x.Deadlock:
+				return "deadlock", nil
+			}
+			return c18Oracle(w.frames, incs), nil
+		}
+	}
+	return "", fmt.Errorf("unknown scenario %q", c.Scenario)
+}
+
 func c18Parent(prop, tier string) int {
 	start := time.Now()
 	ck := Registry["C18"]
@@ -296,7 +353,7 @@ func c18Parent(prop, tier string) int {
 }
 
 func init() {
-	Registry["C18"] = &Check{Level: "model_checking", Worker: c18Worker, Parent: c18Parent, QuickBudget: 60 * time.Second, ThoroughBudget: 10 * time.Minute,
-		Rule:        "the real meter/meter.go, mechanically rewritten from its current text so that every mutex, atomic, channel, select, close, ticker and go statement is a scheduling point of a cooperative scheduler (one logical thread at a time), as is every write to the meter's writer; threads: the worker (Start/Inc*/Done per phase), every ticker goroutine the code spawns, one environment thread per ticker offering 2 (quick) / 3 (thorough) ticks; ALL schedules with at most 3 (quick) / 4 (thorough) deviations from the default schedule are executed; oracle on the byte frames written to the meter's writer: exactly one LF-terminated frame per phase carrying the number of Inc calls, counts within a phase never decrease and never exceed the final count, no frame of a phase after its final line or before its Start; deadlock, panic and step-horizon are violations; every violation is confirmed by replaying its schedule twice. end-to-end: in-process scans of all commit DAGs n<=3 (all commits sharing one root tree) and the mixed family with the real meter: each phase's final line must carry the census count of its kind (references phase: number of roots). states = distinct frame sequences observed; transitions = scheduling steps",
+	Registry["C18"] = &Check{Level: "model_checking", Worker: c18Worker, Parent: c18Parent, ReplayExe: "/verif/.build/vcheck-sched", Replay: c18Replay, QuickBudget: 60 * time.Second, ThoroughBudget: 10 * time.Minute,
+		Rule:        "the real meter/meter.go, mechanically rewritten from its current text so that every mutex, atomic, channel, select, close, ticker and go statement is a scheduling point of a cooperative scheduler (one logical thread at a time), as is every write to the meter's writer; threads: the worker (Start/Inc*/Done per phase), every ticker goroutine the code spawns, one environment thread per ticker offering 2 (quick) / 3 (thorough) ticks; ALL schedules with at most 3 (quick) / 4 (thorough) deviations from the default schedule are executed; oracle on the byte frames written to the meter's writer: exactly one LF-terminated frame per phase carrying the number of Inc calls, counts within a phase never decrease and never exceed the final count, no frame of a phase after its final line or before its Start; deadlock, panic and step-horizon are violations; every violation is confirmed by replaying its schedule twice. end-to-end: in-process scans of all commit DAGs n<=3 (all commits sharing one root tree) and the mixed family with the real meter: each phase's final line must carry the census count of its kind (references phase: number of roots). states = distinct frame sequences observed; transitions = scheduling steps; non-trivial = executions whose schedule contains at least one deviation (every explored schedule is distinct)",
 		Assumptions: []string{"scheduling points sit at synchronisation operations: an unsynchronised access is invisible to the explorer (data races are looked for by the separate free-running -race pass of C17, which is sampling and decides nothing)", "ticks beyond the per-ticker bound are not explored"}}
 }
